@@ -113,8 +113,9 @@ func (p *Packet) decodeHead(data []byte) error {
 	if p.DataType != DataTypePenetrate {
 		end += 8
 	}
-	if p.DataType == DataTypeI || p.DataType == DataTypeP || p.DataType == DataTypeB {
-		p.customAttributes.videoFrame = true
+	// 每次都重新赋值 复用同一个Packet解析时 不能沿用上一个包的视频帧标记
+	p.customAttributes.videoFrame = p.DataType == DataTypeI || p.DataType == DataTypeP || p.DataType == DataTypeB
+	if p.customAttributes.videoFrame {
 		end += 4
 	}
 
